@@ -394,6 +394,11 @@ def split_uri(uri):
     # and https://github.com/Pylons/waitress/issues/260
 
     if uri[:2] == b"//":
+        try:
+            # urlsplit, used for every other target, refuses non-ASCII bytes
+            uri.decode("ascii")
+        except UnicodeError:
+            raise ParsingError("Bad URI")
         path = uri
 
         if b"#" in path:
